@@ -504,12 +504,12 @@ fn gen_batch(rng: &mut Rng, pool: u8, g: &Graph, max: usize) -> Vec<Rec> {
         let np = *rng.pick(&[0usize, 0, 1, 1, 1, 2, 2, 3]);
         let mut parents = vec![];
         for _ in 0..np {
-            let p = if rng.pct(12) {
+            let p = if rng.pct(3) {
                 id // self loop
-            } else if rng.pct(25) && !g.is_empty() {
+            } else if rng.pct(30) && !g.is_empty() {
                 // an existing descendant of id (closes a cycle) or any existing node
                 let ds: Vec<u8> = g.keys().copied().filter(|d| reach(g, *d).contains(&id)).collect();
-                if !ds.is_empty() && rng.pct(50) {
+                if !ds.is_empty() && rng.pct(20) {
                     *rng.pick(&ds)
                 } else {
                     let ks: Vec<u8> = g.keys().copied().collect();
@@ -524,7 +524,7 @@ fn gen_batch(rng: &mut Rng, pool: u8, g: &Graph, max: usize) -> Vec<Rec> {
         }
         out.push(Rec { id, parents });
         // duplicate inside the batch: identical or not
-        if rng.pct(8) {
+        if rng.pct(4) {
             let mut d = out[out.len() - 1].clone();
             if rng.pct(50) {
                 d.parents.push(rng.below(pool as usize) as u8);
@@ -658,6 +658,9 @@ impl World for Hierarchy {
                         let mids: Vec<u8> = g.keys().copied().filter(|m| !g[m].is_empty() && g.values().any(|ps| ps.contains(m))).collect();
                         if !mids.is_empty() && rng.pct(60) {
                             ids.push(*rng.pick(&mids));
+                        } else if !g.is_empty() && rng.pct(75) {
+                            let ks: Vec<u8> = g.keys().copied().collect();
+                            ids.push(*rng.pick(&ks));
                         } else {
                             ids.push(rng.below(pool as usize) as u8);
                         }
